@@ -6,12 +6,23 @@ check("C07", "exploration",
       "and writes the observed event list per input; TLC (Trace_Pipeline) validates every event list as a complete behaviour with all invariants evaluated in every "
       "state and prints one REJECT per run that is not. Inputs: exhaustive index-addressed token-string universes defined in TLA+ and re-derived by TLC "
       "(all strings of <=4/5 tokens over a 20-spelling alphabet framed as top-level text and as entry-point body; <=3/4 tokens over a 31-spelling alphabet), "
+      "the index-addressed families of structured programs, defined in TLA+ (SyltPipeline!FamCase), emitted by TLC (MC_Families) and re-derived by TLC "
+      "from the index of every recorded run (id, whole text, std flag): nest (22 constructs - if/elif/else bodies and conditions, case arms/else/scrutinee, "
+      "loop bodies with and without do, do-blocks, inner function definitions, immediately invoked closures, parentheses, list/tuple/blob literals, call "
+      "arguments, arrow calls, left/right operator towers, unary minus - each nested in itself and in every other to depth 8/16/24/32, as trailing expression "
+      "of every block and as non-trailing statement, well typed and with a type error planted innermost: 7744 programs), nestraw/nestsolo (type-changing literal "
+      "towers, not/call/index/field-access chains, blob declarations nested through field types, nested type annotations, import chains of length 8/16), "
+      "place (every top-level-only statement kind x 13 inner positions x what else its name is; every inner-only statement kind at the top level of the main "
+      "and of an imported file), cyc (import cycles in which some or every file has a syntax error), selfty (self-referential inferred types printed by a "
+      "type error); "
       "20 kinds of seeded mutations of the 350 corpus files (truncate/delete/dup/swap/splice/move and copy statements between top level and function bodies/"
       "garbage/char cuts/same-class token swaps/line and statement deletion and duplication/snippet injection) with and without std, and ~1500 in-memory multi-file "
       "projects (missing files, cycles, import/definition collisions, std names, arbitrary text). Rejected runs are delta-debugged to a minimal input whose token "
       "skeleton is the violation signature. Exploration level: TLA+ contributes the protocol and the exhaustive short-string universes; totality over all UTF-8 is not proved.",
       "Trusted: TLC, the SyltPipeline/Trace_Pipeline modules, the recorder c07 (maps Ok/Err/panic, per-error rendering and process fate to events). "
-      "Hangs are detected by budgets, not proved absent. Nesting depth of inputs is bounded by 40 (workers have a 512 MB stack). The harness is a debug build "
+      "Hangs are detected by budgets, not proved absent (work that doubles per nesting level is a timeout from depth ~24; work that doubles per two levels "
+      "- e.g. the parser's assignable-then-expression probe - stays inside the budgets up to the bound). After 8 recorded timeouts in a universe the recorder "
+      "stops and the rest of that universe is `notrun` (rejected, reported with the timeouts). Nesting depth of inputs is bounded by 40 (workers have a 512 MB stack). The harness is a debug build "
       "(overflow checks on), as `cargo build`/`cargo test` build the compiler. Bytes written before a failure are recorded but not constrained here (C03/C06).",
-      "TLA+ outcome-protocol spec + TLC trace validation of recorded compilations (isolated workers, TLC-decided exhaustive token universes, corpus mutation, project families)",
+      "TLA+ outcome-protocol spec + TLC trace validation of recorded compilations (isolated workers, TLC-decided exhaustive token universes, TLC-emitted families of nested / misplaced / cyclic programs, corpus mutation, project families)",
       "DESIGN.md 5.11, 8/C07")
